@@ -43,14 +43,12 @@ impl<'a> RegExp<'a> {
         #[cfg(grex_verif)]
         crate::verif::record("expr", || crate::verif::ser_expr(&ast, config));
 
-        // Surrogate pair escapes are not accepted by the regex crate,
-        // so the check below is only possible if the candidate compiles.
-        let is_self_check_possible = !config.is_astral_code_point_converted_to_surrogate
-            || Self::try_convert_expr_to_regex(&ast, config).is_some();
-
+        // Surrogate pair escapes are not accepted by the regex crate, and a very long
+        // candidate can exceed its size limit, so the check below is only possible
+        // if the candidate compiles.
         if config.is_start_anchor_disabled
             && config.is_end_anchor_disabled
-            && is_self_check_possible
+            && Self::try_convert_expr_to_regex(&ast, config).is_some()
         {
             #[cfg(grex_verif)]
             crate::verif::record("selfcheck", || "on".to_string());
@@ -70,9 +68,10 @@ impl<'a> RegExp<'a> {
                 ast = Expression::from(dfa, config);
                 #[cfg(grex_verif)]
                 crate::verif::record("expr2", || crate::verif::ser_expr(&ast, config));
-                regex = Self::convert_expr_to_regex(&ast, config);
+                let is_matched = Self::try_convert_expr_to_regex(&ast, config)
+                    .is_some_and(|regex| Self::regex_matches_all_test_cases(&regex, test_cases));
 
-                if !Self::regex_matches_all_test_cases(&regex, test_cases) {
+                if !is_matched {
                     #[cfg(grex_verif)]
                     crate::verif::record("check2", || "false".to_string());
                     let mut exprs = vec![];
